@@ -84,6 +84,9 @@ class StreamStub:
     def read(self, n):
         return read_point(self, n)
 
+    def write(self, data):
+        self.written = self.written + data
+
     def write_eof(self):
         self.eof = self.eof + 1
         if self.eof_fails:
@@ -114,13 +117,19 @@ def _cancelled():
 
 
 def _stream(vc, **kw):
-    f = dict(peername=("93.184.216.34", 443), sockname=("10.0.0.2", 50000), closed=0, close_fails=False, eof=0, eof_fails=False)
+    f = dict(peername=("93.184.216.34", 443), sockname=("10.0.0.2", 50000), closed=0, close_fails=False, eof=0, eof_fails=False, written=b"")
     f.update(kw)
     return vc.new("props.C09:StreamStub", **f)
 
 
-def _common_summaries(vc):
+def _log_summaries(vc):
     vc.summary(CH + ".log", lambda v, self_, *a, **k: v.lift(None))
+    vc.summary("mitmproxy.connection:Server.__str__", lambda v, self_: v.lift("Server(...)"))
+    vc.summary("mitmproxy.connection:Client.__str__", lambda v, self_: v.lift("Client(...)"))
+
+
+def _common_summaries(vc):
+    _log_summaries(vc)
     vc.summary("mitmproxy.utils.human:format_address", lambda v, a: v.lift("addr"))
     vc.summary("time:time", lambda v: v.lift(100.0))
     vc.summary("props.C09:hook_point", lambda v, h, hook: v.awaitable("hook", hook))
@@ -290,3 +299,847 @@ def s_open_noaddr(vc):
     vc.ensure("no_connect", "connect" not in env.log)
     vc.ensure("completed_with_error", len(env.completed) == 1 and not isnone(env.completed[0]))
     vc.ensure("state_closed", vc.eq(server.state, env.S.CLOSED))
+
+
+# ---------------------------------------------------------------------------------------------
+# handle_connection: reads until EOF/error/cancellation, always tells the layer and releases the transport
+
+class ForeverEvent:
+    """asyncio.Event() that nobody sets: wait() only ends by cancellation."""
+
+    def wait(self):
+        return forever_point(self)
+
+
+def forever_point(ev):  # summarised: suspension point
+    raise NotImplementedError
+
+
+def _hc_setup(vc, proto, state):
+    _common_summaries(vc)
+    client = mk_client(vc)
+    conn = mk_server(vc, transport_protocol=proto, state=state, timestamp_start=2.0)
+    stream = _stream(vc, close_fails=vc.case("writer_close_raises_oserror", [False, True]))
+    task = vc.new("props.C09:TaskStub", cancel_requests=0, was_cancelled=False, exc=None)
+    io = vc.new("mitmproxy.proxy.server:ConnectionIO", handler=task, reader=stream, writer=stream)
+    other = mk_server(vc, "other", address=("other.example", 80))
+    io2 = vc.new("mitmproxy.proxy.server:ConnectionIO", handler=None, reader=None, writer=None)
+    h = vc.new("props.C09:HandlerStub", client=client, transports=vc.dict([(other, io2), (conn, io)]))
+    vc.summary(CH + ".drain_writers", lambda v, self_: v.awaitable("drain"))
+    vc.summary("asyncio.locks:Event", lambda v: v.new("props.C09:ForeverEvent"))
+    vc.summary("props.C09:forever_point", lambda v, ev: v.awaitable("wait_forever"))
+    return h, conn, stream, other
+
+
+def _tr_keys(vc, h):
+    return [k for k, _ in h.transports.items] if vc.mode == "sym" else list(h.transports.keys())
+
+
+def _handle_connection_body(vc, inductive):
+    from mitmproxy.connection import ConnectionState as S
+    import asyncio
+    proto = vc.case("proto", ["tcp", "udp"])
+    st0 = vc.case("initial_state", [S.OPEN, S.CAN_READ])     # CAN_READ: we already half-closed our side
+    h, conn, stream, other = _hc_setup(vc, proto, st0)
+    reads, delivered, closed_events, log, cancelled_at = [], [], [], [], []
+
+    def on_yield(item):
+        kind = item[1]
+        log.append(kind if kind != "server_event" else "ev:" + hook_name(vc, item[2]))
+        if kind == "server_event":          # atomic (see server_event.atomic): not a cancellation point
+            ev = item[2]
+            if hook_name(vc, ev) == "DataReceived":
+                vc.ensure("data.for_this_connection", ev.connection is conn)
+                delivered.append(ev.data)
+            else:
+                vc.ensure("only_data_and_close_events", hook_name(vc, ev) == "ConnectionClosed" and ev.connection is conn)
+                closed_events.append(conn.state)
+                vc.ensure("closed_event.state_not_readable", Not(flag_has(conn.state, S.CAN_READ)))
+                vc.ensure("closed_event.transport_still_registered", conn in _tr_keys(vc, h) and stream.closed == 0)
+            return None
+        if vc.branch(vc.fresh_bool("cancelled")):
+            cancelled_at.append(kind)
+            return vc.throw(asyncio.CancelledError, "closed by command")
+        if kind == "read":
+            r = vc.case("read_result", ["data", "eof", "oserror"])
+            if r == "data":
+                d = vc.fresh_bytes("chunk")
+                vc.assume(len_(d) > 0)
+                reads.append(d)
+                return d
+            if r == "eof":
+                return b""
+            return vc.throw(ConnectionResetError, "reset")
+        if kind == "wait_forever":
+            vc.assume(False)   # nobody sets this event: the wait can only be cancelled
+        return None
+
+    if inductive and vc.mode == "sym":
+        def inv(it, env, idx):
+            return And(stream.closed == 0, vc.eq(conn.state, st0))
+
+        def havoc(it, env):
+            # an arbitrary earlier iteration: some chunks were read and delivered 1:1, nothing else changed
+            del reads[:], delivered[:]
+
+        inv.havoc = havoc
+        inv.pinned = {"cancelled": NONE}     # `cancelled` is None at every loop head (each assignment is followed by break)
+        vc.invariant(CH + ".handle_connection", 1, inv)
+    out = vc.call(CH + ".handle_connection", h, conn, on_yield=on_yield)
+    vc.ensure("exit.transport_removed", conn not in _tr_keys(vc, h))
+    vc.ensure("exit.other_transports_untouched", other in _tr_keys(vc, h) and len(_tr_keys(vc, h)) == 1)
+    vc.ensure("exit.writer_closed_exactly_once", stream.closed == 1)
+    vc.ensure("exit.layer_told_exactly_once", len(closed_events) == 1)
+    vc.ensure("exit.nothing_read_or_delivered_after_close_event", "ev:ConnectionClosed" in log and not [k for k in log[log.index("ev:ConnectionClosed") + 1:] if k in ("read", "drain", "ev:DataReceived", "ev:ConnectionClosed")])
+    vc.ensure("exit.every_chunk_delivered_once_in_order", len(delivered) == len(reads) and all(a is b for a, b in zip(delivered, reads)))
+    vc.ensure("exit.not_readable", Not(flag_has(conn.state, S.CAN_READ)))
+    if cancelled_at:
+        vc.ensure("cancel.reraised", (not out.ok) and out.raised_type() is asyncio.CancelledError)
+        if cancelled_at[0] in ("read", "drain"):
+            vc.ensure("cancel.state_closed", vc.eq(conn.state, S.CLOSED))
+    else:
+        vc.ensure("no_cancel.returns_normally", out.ok)
+    if not cancelled_at or cancelled_at[0] == "wait_forever":
+        vc.ensure("peer_close.half_close_only_for_tcp", vc.eq(closed_events[0], (st0 & ~S.CAN_READ) if proto == "tcp" else S.CLOSED) if closed_events else False)
+    if "wait_forever" in log:
+        vc.ensure("keeps_waiting_only_when_writable", proto == "tcp" and st0 == S.OPEN and vc.eq(closed_events[0], S.CAN_WRITE))
+
+
+@scenario("handle_connection.cleanup", functions=[CH + ".handle_connection"])
+def s_handle_connection(vc):
+    """Inductive over the read loop (invariant: not cancelled, writer open, state unchanged)."""
+    _handle_connection_body(vc, True)
+
+
+@scenario("handle_connection.cleanup.unrolled", functions=[CH + ".handle_connection"], max_unroll=3)
+def s_handle_connection_unrolled(vc):
+    """Same obligations on the first iterations without the invariant: failures here replay on the real coroutine."""
+    _handle_connection_body(vc, False)
+
+
+# ---------------------------------------------------------------------------------------------
+# drain_writers: a write error on any transport cancels that transport's handler (=> its cleanup path runs)
+
+def drain_point(stream):  # summarised: suspension point
+    raise NotImplementedError
+
+
+class DrainStream(StreamStub):
+    def drain(self):
+        return drain_point(self)
+
+
+@scenario("drain_writers.write_error_cancels_handler", functions=[CH + ".drain_writers"])
+def s_drain(vc):
+    import asyncio
+    _common_summaries(vc)
+    vc.summary("props.C09:drain_point", lambda v, s: v.awaitable("drain", s))
+    client = mk_client(vc)
+    server = mk_server(vc)
+    lock = vc.new("props.C09:SemStub", held=0)
+    f = dict(peername=None, sockname=None, closed=0, close_fails=False, eof=0, eof_fails=False, written=b"")
+    w1, w2 = vc.new("props.C09:DrainStream", **f), vc.new("props.C09:DrainStream", **f)
+    t1 = vc.new("props.C09:TaskStub", cancel_requests=0, was_cancelled=False, exc=None)
+    t2 = vc.new("props.C09:TaskStub", cancel_requests=0, was_cancelled=False, exc=None)
+    opening = mk_server(vc, "opening")
+    h = vc.new("props.C09:HandlerStub", client=client, _drain_lock=lock, transports=vc.dict([
+        (client, vc.new("mitmproxy.proxy.server:ConnectionIO", handler=t1, reader=w1, writer=w1)),
+        (opening, vc.new("mitmproxy.proxy.server:ConnectionIO", handler=vc.new("props.C09:TaskStub", cancel_requests=0, was_cancelled=False, exc=None), reader=None, writer=None)),
+        (server, vc.new("mitmproxy.proxy.server:ConnectionIO", handler=t2, reader=w2, writer=w2)),
+    ]))
+    failed, cancelled_at = [], []
+
+    def on_yield(item):
+        if vc.branch(vc.fresh_bool("cancelled")):
+            cancelled_at.append(item[1])
+            return vc.throw(asyncio.CancelledError)
+        if item[1] == "drain":
+            if vc.branch(vc.fresh_bool("write_error")):
+                failed.append(item[2])
+                return vc.throw(BrokenPipeError, "broken pipe")
+        return None
+
+    out = vc.call(CH + ".drain_writers", h, on_yield=on_yield)
+    vc.ensure("lock_released", lock.held == 0)
+    vc.ensure("only_cancellation_escapes", out.ok == (not cancelled_at) and (out.ok or out.raised_type() is asyncio.CancelledError))
+    vc.ensure("write_error.cancels_exactly_that_handler", And(t1.cancel_requests == (1 if w1 in failed else 0), t2.cancel_requests == (1 if w2 in failed else 0)))
+    if not cancelled_at:
+        vc.ensure("every_writer_drained", [x for x in out.trace if x[1] == "drain"] and [x[2] for x in out.trace if x[1] == "drain"] == [w1, w2])
+
+
+# ---------------------------------------------------------------------------------------------
+# server_event: the critical section contains no suspension point (=> its lock is never contended => server_event does not
+# suspend => it is not a cancellation point for its callers); OpenConnection registers the task before anyone else runs
+
+def create_task_point(coro, name, keep_ref, client):
+    raise NotImplementedError
+
+
+class LayerStub:
+    def handle_event(self, event):
+        return layer_point(self, event)
+
+
+def layer_point(layer, event):
+    raise NotImplementedError
+
+
+class CoroStub:
+    """a coroutine object that has been created but not started (argument of create_task)"""
+
+
+class WatchdogStub:
+    def register_activity(self):
+        self.activity = self.activity + 1
+
+    def watch(self):
+        return self.watch_coro
+
+
+@scenario("server_event.atomic_and_registers_tasks", functions=[CH + ".server_event", CH + ".close_connection"])
+def s_server_event(vc):
+    from mitmproxy.connection import ConnectionState as S
+    _log_summaries(vc)
+    vc.summary("props.C09:sem_acquire_point", lambda v, sem: v.awaitable("sem_acquire", sem))
+    client = mk_client(vc)
+    server = mk_server(vc, state=S.OPEN, timestamp_start=2.0)
+    fresh = mk_server(vc, "fresh")
+    gone = mk_server(vc, "gone")
+    w = _stream(vc)
+    t_srv = vc.new("props.C09:TaskStub", cancel_requests=0, was_cancelled=False, exc=None)
+    t_cli = vc.new("props.C09:TaskStub", cancel_requests=0, was_cancelled=False, exc=None)
+    lock = vc.new("props.C09:SemStub", held=0)
+    kind = vc.case("command", ["open", "send", "send_gone", "close", "close_gone", "half_close", "hook", "wakeup", "log", "bogus", "layer_raises"])
+    data = vc.sym_bytes("data")
+    mk = lambda ref, **f: vc.new(ref, **f)
+    cmds = {
+        "open": [mk("mitmproxy.proxy.commands:OpenConnection", connection=fresh, blocking=True)],
+        "send": [mk("mitmproxy.proxy.commands:SendData", connection=server, data=data, blocking=False)],
+        "send_gone": [mk("mitmproxy.proxy.commands:SendData", connection=gone, data=data, blocking=False)],
+        "close": [mk("mitmproxy.proxy.commands:CloseConnection", connection=server, blocking=False)],
+        "close_gone": [mk("mitmproxy.proxy.commands:CloseConnection", connection=gone, blocking=False)],
+        "half_close": [mk("mitmproxy.proxy.commands:CloseTcpConnection", connection=server, half_close=True, blocking=False)],
+        "hook": [mk("mitmproxy.proxy.server_hooks:ClientConnectedHook", client=client, blocking=True)],
+        "wakeup": [mk("mitmproxy.proxy.commands:RequestWakeup", delay=1.0, blocking=False)],
+        "log": [mk("mitmproxy.proxy.commands:Log", message="m", level=20, blocking=False)],
+        "bogus": [mk("mitmproxy.proxy.commands:Command", blocking=False)],
+        "layer_raises": [],
+    }[kind]
+    created, coros = [], []
+
+    def create_task(v, coro, **kw):
+        t = v.new("props.C09:TaskStub", cancel_requests=0, was_cancelled=False, exc=None, coro=coro)
+        created.append(t)
+        return t
+
+    def layer_events(v, layer, event):
+        if kind == "layer_raises":
+            v.raise_(RuntimeError, "layer bug")
+        return v.gen(cmds)
+
+    vc.summary("mitmproxy.utils.asyncio_utils:create_task", create_task)
+    vc.summary("props.C09:layer_point", layer_events)
+    for m in ("open_connection", "wakeup", "hook_task"):
+        vc.summary(CH + "." + m, (lambda m: lambda v, self_, c: coros.append((m, c)) or v.new("props.C09:CoroStub", n=len(coros) - 1))(m))
+    wd = vc.new("props.C09:WatchdogStub", activity=0)
+    h = vc.new("props.C09:HandlerStub", client=client, _server_event_lock=lock, timeout_watchdog=wd, layer=vc.new("props.C09:LayerStub"), wakeup_timer=set(),
+               transports=vc.dict([(client, vc.new("mitmproxy.proxy.server:ConnectionIO", handler=t_cli, reader=w, writer=w)),
+                                   (server, vc.new("mitmproxy.proxy.server:ConnectionIO", handler=t_srv, reader=w, writer=w))]))
+    held_at = []
+
+    def on_yield(item):
+        held_at.append(item[1])
+        vc.ensure("suspends_only_before_the_critical_section", And(item[1] == "sem_acquire", lock.held == 0))
+
+    out = vc.call(CH + ".server_event", h, vc.new("mitmproxy.proxy.events:Start"), on_yield=on_yield)
+    vc.ensure("no_exception_escapes", out.ok)
+    vc.ensure("critical_section_has_no_suspension_point", held_at == ["sem_acquire"])
+    vc.ensure("lock_released", lock.held == 0)
+    vc.ensure("activity_registered", wd.activity == 1)
+    keys = _tr_keys(vc, h)
+    if kind == "open":
+        io = [v for k, v in (h.transports.items if vc.mode == "sym" else h.transports.items()) if k is fresh]
+        vc.ensure("open.task_created_and_registered", len(created) == 1 and len(io) == 1 and io[0].handler is created[0] and io[0].writer is None or isnone(io[0].writer))
+        vc.ensure("open.task_runs_open_connection", len(created) == 1 and len(coros) == 1 and coros[0][0] == "open_connection" and coros[0][1] is cmds[0] and hook_name(vc, created[0].coro) == "CoroStub")
+    else:
+        vc.ensure("transports_unchanged", len(keys) == 2)
+    if kind == "close":
+        vc.ensure("close.state_closed_and_handler_cancelled", And(vc.eq(server.state, S.CLOSED), t_srv.cancel_requests == 1, t_cli.cancel_requests == 0))
+    if kind == "half_close":
+        vc.ensure("half_close.eof_written_still_readable_handler_kept", And(w.eof == 1, vc.eq(server.state, S.CAN_READ), t_srv.cancel_requests == 0))
+    if kind in ("send_gone", "close_gone"):
+        vc.ensure("gone.ignored", And(t_srv.cancel_requests == 0, t_cli.cancel_requests == 0, vc.eq(server.state, S.OPEN)))
+    if kind == "wakeup":
+        timers = h.wakeup_timer.items if vc.mode == "sym" else list(h.wakeup_timer)
+        vc.ensure("wakeup.timer_registered_for_cancellation", len(created) == 1 and len(timers) == 1 and timers[0] is created[0])
+
+
+# ---------------------------------------------------------------------------------------------
+# close_connection / on_timeout
+
+@scenario("close_connection.closed_implies_handler_cancelled", functions=[CH + ".close_connection"])
+def s_close_connection(vc):
+    from mitmproxy.connection import ConnectionState as S
+    _log_summaries(vc)
+    half = vc.case("half_close", [False, True])
+    st0 = vc.case("state", [S.OPEN, S.CAN_WRITE, S.CAN_READ, S.CLOSED])
+    eof_fails = vc.case("write_eof_raises", [False, True])
+    closing = vc.case("writer_already_closing", [False, True])
+    client = mk_client(vc)
+    server = mk_server(vc, state=st0, timestamp_start=2.0)
+    w = _stream(vc, eof_fails=eof_fails, closed=1 if closing else 0)
+    t = vc.new("props.C09:TaskStub", cancel_requests=0, was_cancelled=False, exc=None)
+    t_cli = vc.new("props.C09:TaskStub", cancel_requests=0, was_cancelled=False, exc=None)
+    h = vc.new("props.C09:HandlerStub", client=client, transports=vc.dict([(client, vc.new("mitmproxy.proxy.server:ConnectionIO", handler=t_cli, reader=w, writer=w)), (server, vc.new("mitmproxy.proxy.server:ConnectionIO", handler=t, reader=w, writer=w))]))
+    out = vc.call(CH + ".close_connection", h, server, half)
+    vc.ensure("no_exception", out.ok)
+    vc.ensure("other_handlers_untouched", t_cli.cancel_requests == 0)
+    if not half:
+        vc.ensure("full_close.state_closed", vc.eq(server.state, S.CLOSED))
+    elif not (st0 & S.CAN_WRITE):
+        vc.ensure("half_close.noop_when_not_writable", And(vc.eq(server.state, st0), w.eof == 0, t.cancel_requests == 0))
+    else:
+        vc.ensure("half_close.eof_written_unless_closing", w.eof == (0 if closing else 1))
+        vc.ensure("half_close.state", vc.eq(server.state, S.CLOSED if (eof_fails and not closing) else st0 & ~S.CAN_WRITE))
+    # the clause the lifecycle pairing relies on: whoever makes a connection CLOSED also cancels its handler task, so that
+    # handle_connection / open_connection run their cleanup (server_disconnected, transports.pop, writer.close)
+    became_closed = st0 != S.CLOSED or not half
+    if vc.branch(vc.eq(server.state, S.CLOSED)) and became_closed:
+        vc.ensure("closed.handler_cancel_requested_once", t.cancel_requests == 1)
+    else:
+        vc.ensure("not_closed.handler_not_cancelled", t.cancel_requests == 0)
+
+
+@scenario("on_timeout.cancels_client_handler", functions=[CH + ".on_timeout"])
+def s_on_timeout(vc):
+    _log_summaries(vc)
+    present = vc.case("client_transport_present", [True, False])
+    proto = vc.case("proto", ["tcp", "udp"])
+    client = mk_client(vc, transport_protocol=proto)
+    server = mk_server(vc)
+    w = _stream(vc)
+    t_cli = vc.new("props.C09:TaskStub", cancel_requests=0, was_cancelled=False, exc=None)
+    t_srv = vc.new("props.C09:TaskStub", cancel_requests=0, was_cancelled=False, exc=None)
+    items = [(server, vc.new("mitmproxy.proxy.server:ConnectionIO", handler=t_srv, reader=w, writer=w))]
+    if present:
+        items.insert(0, (client, vc.new("mitmproxy.proxy.server:ConnectionIO", handler=t_cli, reader=w, writer=w)))
+    h = vc.new("props.C09:HandlerStub", client=client, transports=vc.dict(items))
+    out = vc.call(CH + ".on_timeout", h, on_yield=lambda item: vc.unreachable("on_timeout_does_not_suspend"))
+    vc.ensure("no_exception", out.ok)
+    vc.ensure("client_handler_cancelled_iff_present", t_cli.cancel_requests == (1 if present else 0))
+    vc.ensure("server_handlers_left_to_handle_client", t_srv.cancel_requests == 0)
+
+
+# ---------------------------------------------------------------------------------------------
+# handle_client: client_connected once, client_disconnected once after it; refused clients never reach the layer;
+# afterwards every remaining handler is cancelled and awaited
+
+def _task(vc, **kw):
+    f = dict(cancel_requests=0, was_cancelled=False, exc=None)
+    f.update(kw)
+    return vc.new("props.C09:TaskStub", **f)
+
+
+@scenario("handle_client.lifecycle", functions=[CH + ".handle_client"])
+def s_handle_client(vc):
+    from mitmproxy.connection import ConnectionState as S
+    _common_summaries(vc)
+    refused = vc.case("client_connected_hook_sets_error", [False, True])
+    outcome = vc.case("client_handler_outcome", ["returned", "cancelled", "crashed"])
+    remaining = vc.case("transports_left_when_client_handler_ends", ["none", "server_open", "server_opening_and_open", "client_entry_still_there"])
+    n_timers = vc.case("pending_wakeup_timers", [0, 2])
+    client = mk_client(vc)
+    cw = _stream(vc)
+    cio = vc.new("mitmproxy.proxy.server:ConnectionIO", handler=None, reader=cw, writer=cw)
+    timers = [_task(vc) for _ in range(n_timers)]
+    wd = vc.new("props.C09:WatchdogStub", activity=0, watch_coro=vc.new("props.C09:CoroStub", n=0))
+    h = vc.new("props.C09:HandlerStub", client=client, timeout_watchdog=wd, wakeup_timer=set(timers), transports=vc.dict([(client, cio)]))
+    created, log = [], []
+    hc_coro = vc.new("props.C09:CoroStub", n=1)
+
+    def create_task(v, coro, **kw):
+        t = _task(v, coro=coro)
+        created.append(t)
+        log.append("create_task")
+        return t
+
+    vc.summary("mitmproxy.utils.asyncio_utils:create_task", create_task)
+    vc.summary("mitmproxy.utils.asyncio_utils:set_current_task_debug_info", lambda v, **k: v.lift(None))
+    vc.summary(CH + ".handle_connection", lambda v, self_, conn: hc_coro)
+    vc.summary("asyncio.tasks:wait", lambda v, tasks, **k: v.awaitable("wait", tasks))
+    s1, s2 = mk_server(vc, "s1"), mk_server(vc, "s2", address=("other.example", 80))
+    t1, t2 = _task(vc), _task(vc)
+    sw = _stream(vc)
+    waited = []
+    at_disconnect = {}
+
+    def set_transports(items):
+        if vc.mode == "sym":
+            h.transports.items[:] = items
+        else:
+            h.transports.clear()
+            h.transports.update(items)
+
+    def on_yield(item):
+        kind = item[1]
+        if kind == "hook":
+            name = hook_name(vc, item[2])
+            log.append(name)
+            vc.ensure("hook.about_this_client", item[2].client is client)
+            if name == "ClientConnectedHook" and refused:
+                client.error = "Client connection from 8.8.8.8 killed by block_global option."
+            if name == "ClientDisconnectedHook":
+                at_disconnect["watch_cancelled"] = created[0].cancel_requests if created else None
+                at_disconnect["timers"] = [t.cancel_requests for t in timers]
+                at_disconnect["timestamp_end"] = client.timestamp_end
+            return None
+        if kind == "server_event":
+            log.append("ev:" + hook_name(vc, item[2]))
+            return None
+        if kind == "wait":
+            tasks = item[2].items if vc.mode == "sym" else list(item[2])
+            waited.append(list(tasks))
+            log.append("wait")
+            if len(waited) == 1:
+                # the client's handler task has ended; meanwhile other tasks have opened / closed upstream connections
+                hd = created[1]
+                hd.was_cancelled = outcome == "cancelled"
+                hd.exc = vc.construct("builtins:RuntimeError", "boom") if outcome == "crashed" else None
+                items = {"none": [], "server_open": [(s1, vc.new("mitmproxy.proxy.server:ConnectionIO", handler=t1, reader=sw, writer=sw))],
+                         "server_opening_and_open": [(s1, vc.new("mitmproxy.proxy.server:ConnectionIO", handler=t1, reader=None, writer=None)), (s2, vc.new("mitmproxy.proxy.server:ConnectionIO", handler=t2, reader=sw, writer=sw))],
+                         "client_entry_still_there": [(client, cio)]}[remaining]
+                set_transports(items)
+            return None
+        vc.unreachable("unexpected_suspension_point." + kind)
+
+    out = vc.call(CH + ".handle_client", h, on_yield=on_yield)
+    vc.ensure("no_exception_escapes", out.ok)
+    hooks = [x for x in log if x.endswith("Hook")]
+    vc.ensure("hooks.connected_once_then_disconnected_once", hooks == ["ClientConnectedHook", "ClientDisconnectedHook"])
+    vc.ensure("watchdog.started_first_and_cancelled_before_disconnect_hook", len(created) >= 1 and created[0].coro is wd.watch_coro and vc.eq(at_disconnect.get("watch_cancelled"), 1))
+    vc.ensure("wakeup_timers.all_cancelled_before_disconnect_hook", And(*[c == 1 for c in at_disconnect.get("timers", [0])]) if timers else True)
+    left = h.wakeup_timer.items if vc.mode == "sym" else list(h.wakeup_timer)
+    vc.ensure("wakeup_timers.set_emptied", len(left) == 0)
+    vc.ensure("timestamp_end.set_before_disconnect_hook", not isnone(at_disconnect.get("timestamp_end")))
+    if refused:
+        vc.ensure("refused.never_reaches_the_layer", not [x for x in log if x.startswith("ev:")])
+        vc.ensure("refused.no_connection_handler_task", len(created) == 1)
+        vc.ensure("refused.client_socket_closed_once", cw.closed == 1)
+        vc.ensure("refused.client_transport_removed", len(_tr_keys(vc, h)) == 0)
+        vc.ensure("refused.nothing_awaited", waited == [])
+    else:
+        vc.ensure("accepted.layer_started_once_before_reading", log[:4] == ["create_task", "ClientConnectedHook", "ev:Start", "create_task"] and log.count("ev:Start") == 1)
+        vc.ensure("accepted.client_handler_registered_and_awaited", len(created) == 2 and created[1].coro is hc_coro and cio.handler is created[1] and len(waited) >= 1 and waited[0] == [created[1]])
+        expect = {"none": [], "server_open": [t1], "server_opening_and_open": [t1, t2], "client_entry_still_there": [created[1]] if len(created) == 2 else []}[remaining]
+        i = log.index("ClientDisconnectedHook") if "ClientDisconnectedHook" in log else -1
+        vc.ensure("after_disconnect.every_remaining_handler_cancelled", And(*[t.cancel_requests == 1 for t in expect]) if expect else True)
+        vc.ensure("after_disconnect.every_remaining_handler_awaited", (waited[1:] == [expect]) if expect else len(waited) == 1)
+        vc.ensure("after_disconnect.order", log[i + 1:] == (["wait"] if expect else []))
+
+
+# =============================================================================================
+# T2: the real ConnectionHandler under a real (deterministic, no wall-clock) asyncio loop with fake streams;
+# faults are injected at every await position of a canonical exchange
+
+class _T2Env:
+    """One in-process run. Instrumented await positions call `await env.reach(label)`; when the chosen position is reached
+    the fault is performed and the reaching task stays suspended there for a few loop turns, so that a cancellation caused by
+    the fault is delivered at exactly that await."""
+
+    def __init__(self, faults, connect_fail=(), refuse=False):
+        self.faults = dict(faults)        # label -> fault kind
+        self.connect_fail = set(connect_fail)
+        self.refuse = refuse
+        self.trace, self.done_labels, self.hooks, self.layer_events = [], [], [], []
+        self.cancelled_at = {}            # key -> label at which CancelledError surfaced
+        self.counts = {}
+        self.writers = []                 # every fake socket ever created
+        self.max_open = {}
+        self.readers = {}
+        self.fired = []
+        self.activity = 0
+        self.servers = {}
+        self.h = None
+
+    def label(self, base):
+        n = self.counts.get(base, 0)
+        self.counts[base] = n + 1
+        return base if n == 0 else f"{base}#{n}"
+
+    async def reach(self, base, key=None):
+        import asyncio
+        lab = self.label(base)
+        self.trace.append(lab)
+        self.activity += 1
+        try:
+            if lab in self.faults and lab not in self.fired:
+                self.fired.append(lab)
+                self.do_fault(self.faults[lab])
+                for _ in range(6):
+                    await asyncio.sleep(0)
+            else:
+                await asyncio.sleep(0)
+        except asyncio.CancelledError:
+            if key is not None:
+                self.cancelled_at.setdefault(key, lab)
+            raise
+        self.done_labels.append(lab)
+        return lab
+
+    def do_fault(self, kind):
+        import asyncio
+        self.activity += 1
+        k, _, arg = kind.partition(":")
+        if k == "cancel":             # the layer closes that upstream connection (close_connection -> handler.cancel)
+            asyncio.ensure_future(self.h.server_event(_Inject("close", arg)))
+        elif k == "client_eof":
+            self.readers["client"].q.put_nowait(b"")
+        elif k == "client_reset":
+            self.readers["client"].q.put_nowait(ConnectionResetError("reset by peer"))
+        elif k == "timeout":
+            asyncio.ensure_future(self.h.on_timeout())
+        elif k == "server_eof":
+            if arg in self.readers:
+                self.readers[arg].q.put_nowait(b"")
+        elif k == "server_reset":
+            if arg in self.readers:
+                self.readers[arg].q.put_nowait(ConnectionResetError("reset by peer"))
+        elif k == "write_error":
+            for w in self.writers:
+                if w.key == arg:
+                    w.fail = True
+        else:
+            raise AssertionError(kind)
+
+    def note_open(self):
+        per = {}
+        for w in self.writers:
+            if not w.closed and w.key != "client":
+                per[w.addr] = per.get(w.addr, 0) + 1
+        for a, n in per.items():
+            self.max_open[a] = max(self.max_open.get(a, 0), n)
+
+
+class _Inject:
+    def __init__(self, what, arg):
+        self.what, self.arg = what, arg
+
+
+def _t2_classes():
+    import asyncio
+    from mitmproxy.proxy import server, events, commands, layer
+    from mitmproxy.connection import ConnectionState
+
+    class W:
+        def __init__(self, env, key, addr):
+            self.env, self.key, self.addr, self.closed, self.fail, self.data, self.eof = env, key, addr, False, False, b"", False
+            env.writers.append(self)
+            env.note_open()
+
+        def close(self):
+            self.closed = True
+            self.env.activity += 1
+
+        def is_closing(self):
+            return self.closed
+
+        def write(self, d):
+            self.data += d
+            self.env.activity += 1
+
+        def write_eof(self):
+            self.eof = True
+
+        async def drain(self):
+            await self.env.reach(f"drain:{self.key}", self.key)
+            if self.fail:
+                raise BrokenPipeError("broken pipe")
+
+        def get_extra_info(self, k, d=None):
+            return {"peername": (self.addr[0], self.addr[1]), "sockname": ("10.0.0.2", 50000)}.get(k, d)
+
+    class R:
+        def __init__(self, env, key):
+            self.env, self.key, self.q = env, key, asyncio.Queue()
+            env.readers[key] = self
+
+        async def read(self, n):
+            await self.env.reach(f"read:{self.key}", self.key)
+            x = await self.q.get()
+            self.env.activity += 1
+            if isinstance(x, BaseException):
+                raise x
+            return x
+
+    class ScriptLayer:
+        """A multiplexing layer reduced to its connection management: opens all upstreams at Start (concurrently, like
+        HTTP/2 streams do), relays, closes everything when the client goes away, closes an upstream when it goes away."""
+
+        def __init__(self, env, context, servers):
+            self.env, self.context, self.servers = env, context, servers
+            self.completed = {}
+
+        def handle_event(self, event):
+            env = self.env
+            env.layer_events.append(type(event).__name__ if not isinstance(event, _Inject) else f"inject:{event.what}:{event.arg}")
+            client = self.context.client
+            if isinstance(event, _Inject):
+                yield commands.CloseConnection(env.servers[event.arg])
+            elif isinstance(event, events.Start):
+                for s in self.servers:
+                    yield commands.OpenConnection(s)
+            elif isinstance(event, events.OpenConnectionCompleted):
+                self.completed[id(event.command.connection)] = event.reply
+            elif isinstance(event, events.DataReceived):
+                if event.connection is client:
+                    for s in self.servers:
+                        if s.state & ConnectionState.CAN_WRITE:
+                            yield commands.SendData(s, event.data)
+                else:
+                    yield commands.SendData(client, event.data)
+            elif isinstance(event, events.ConnectionClosed):
+                if event.connection is client:
+                    for s in self.servers:
+                        yield commands.CloseConnection(s)
+                    yield commands.CloseConnection(client)
+                else:
+                    yield commands.CloseConnection(event.connection)
+
+    class H(server.ConnectionHandler):
+        env = None
+
+        async def handle_hook(self, hook):
+            env = self.env
+            (data,) = hook.args()
+            srv = getattr(data, "server", None)
+            key = "client"
+            if srv is not None and hasattr(data, "client"):
+                if not [k for k, s in env.servers.items() if s is srv]:
+                    env.servers[f"s{len(env.servers) + 1}"] = srv      # a connection created by a real layer
+                key = [k for k, s in env.servers.items() if s is srv][0]
+            if hook.name == "next_layer":
+                from mitmproxy.proxy import layers
+                from mitmproxy.proxy.layers.http import HTTPMode
+                data.layer = layers.HttpLayer(data.context, HTTPMode.regular)
+            if hook.name == "client_connected" and env.refuse:
+                data.error = "refused by block_global"
+            env.hooks.append((hook.name, key))
+            await env.reach(f"hook:{hook.name}:{key}", key)
+
+    return W, R, ScriptLayer, H
+
+
+def _t2_run(addrs, faults=(), connect_fail=(), refuse=False, script=("client_data", "server_data", "client_eof"), http=False):
+    """Run one exchange on the real handler. addrs: upstream addresses, in the order the layer opens them.
+    http=True: the handler keeps its real NextLayer -> real HttpLayer (regular proxy mode); the client sends one GET."""
+    import asyncio
+    from mitmproxy.proxy import server, context
+    from mitmproxy.connection import Server
+    from props import sansio
+    W, R, ScriptLayer, H = _t2_classes()
+    env = _T2Env(faults, connect_fail, refuse)
+    res = {}
+
+    async def settle(limit=400):
+        quiet, last = 0, -1
+        for _ in range(limit):
+            await asyncio.sleep(0)
+            if env.activity == last:
+                quiet += 1
+                if quiet >= 12:
+                    return
+            else:
+                quiet, last = 0, env.activity
+
+    async def main():
+        opts = _T2_OPTS[0] if _T2_OPTS else _T2_OPTS.append(sansio.make_options()) or _T2_OPTS[0]
+        client = sansio.make_client()
+        ctx = context.Context(client, opts)
+        h = H(ctx)
+        h.env = env
+        env.h = h
+        for i, a in enumerate(addrs):
+            env.servers[f"s{i + 1}"] = Server(address=a)
+        servers = list(env.servers.values())
+        if http:
+            from mitmproxy.proxy import mode_specs
+            client.proxy_mode = mode_specs.ProxyMode.parse("regular")
+            env.servers.clear()
+        else:
+            h.layer = ScriptLayer(env, ctx, servers)
+        cr, cw = R(env, "client"), W(env, "client", ("127.0.0.1", 51234))
+        h.transports[client] = server.ConnectionIO(handler=None, reader=cr, writer=cw)
+
+        async def fake_open(host, port, local_addr=None):
+            me = asyncio.current_task()
+            key = [k for k, s in env.servers.items() if s in h.transports and h.transports[s].handler is me][0]
+            await env.reach(f"connect:{key}", key)
+            if key in env.connect_fail:
+                raise ConnectionRefusedError(f"connect to {host} refused")
+            return R(env, key), W(env, key, (host, port))
+
+        orig = asyncio.open_connection
+        asyncio.open_connection = fake_open
+        try:
+            t = asyncio.ensure_future(h.handle_client())
+            await settle()
+            for step in script:
+                if t.done():
+                    break
+                if step == "client_data":
+                    cr.q.put_nowait(b"GET http://example.com/ HTTP/1.1\r\nHost: example.com\r\n\r\n" if http else b"ping")
+                elif step == "server_data":
+                    for k, r in list(env.readers.items()):
+                        if k != "client":
+                            r.q.put_nowait(b"HTTP/1.1 200 OK\r\nContent-Length: 2\r\n\r\nok" if http else b"pong-" + k.encode())
+                elif step == "client_eof":
+                    cr.q.put_nowait(b"")
+                env.activity += 1
+                await settle()
+            res["needed_timeout"] = False
+            if not t.done():
+                # last legitimate environment event: the inactivity timeout
+                res["needed_timeout"] = True
+                await h.on_timeout()
+                await settle()
+            res["hang"] = not t.done()
+            if not t.done():
+                t.cancel()
+                await settle()
+            res["crash"] = None if t.cancelled() or not t.done() or t.exception() is None else repr(t.exception())
+            await settle()
+            res["pending_tasks"] = sorted(x.get_coro().__qualname__ for x in asyncio.all_tasks() if x is not asyncio.current_task() and not x.done())
+            for x in asyncio.all_tasks():
+                if x is not asyncio.current_task():
+                    x.cancel()
+            await settle(50)
+        finally:
+            asyncio.open_connection = orig
+        res["transports"] = [(("client" if c is client else [k for k, s in env.servers.items() if s is c][0]), io.writer is not None and not io.writer.closed, io.handler is not None and not io.handler.done()) for c, io in h.transports.items()]
+        res["states"] = {k: s.state for k, s in env.servers.items()}
+
+    import logging
+    logging.disable(logging.CRITICAL)
+    try:
+        asyncio.run(main())
+    finally:
+        logging.disable(logging.NOTSET)
+    res["env"] = env
+    return res
+
+
+_T2_OPTS = []
+
+
+def _t2_check(b, res, inp, expect_started=True):
+    """The statement's clauses evaluated on one finished run."""
+    env = res["env"]
+    hooks = env.hooks
+    if res["hang"]:
+        b.fail("t2.handle_client_terminates", inp, f"trace tail {env.trace[-6:]}")
+    if res["crash"]:
+        b.fail("t2.handle_client_no_exception", inp, res["crash"])
+    names = [n for n, k in hooks if k == "client"]
+    if names.count("client_connected") != 1 or names.count("client_disconnected") != 1 or hooks[0][0] != "client_connected" or names.index("client_connected") > names.index("client_disconnected"):
+        b.fail("t2.client_hooks_pair_up", inp, str(hooks))
+    for key in env.servers:
+        ns = [n for n, k in hooks if k == key]
+        last = [l for l in env.trace if l.endswith(":" + key) or (":" + key + "#") in l]
+        at = env.cancelled_at.get(key)
+        # class predicates of the recorded findings (narrow): where was the open_connection task when it was cancelled
+        kf1 = ns == ["server_connect"] and (at == f"hook:server_connect:{key}" or (at is None and last[-1:] == [f"hook:server_connect:{key}"]))
+        kf2 = "server_connected" in ns and at == f"hook:server_connected:{key}"
+        if ns.count("server_connect") > 1:
+            b.fail("t2.server_connect_at_most_once", inp, str(ns))
+        if ns and ns[0] != "server_connect":
+            b.fail("t2.server_hooks_start_with_connect", inp, str(ns))
+        if "server_connect" in ns and ns.count("server_connected") + ns.count("server_connect_error") != 1:
+            b.fail("t2.connect_then_exactly_one_outcome" + ("[KF-C09-1]" if kf1 else ""), inp, f"{key}: {ns} cancelled at {at}")
+        ok = ns.count("server_connected")
+        if ns.count("server_disconnected") != ok or (ok and ns.index("server_connected") > ns.index("server_disconnected")):
+            b.fail("t2.connected_then_exactly_one_disconnected" + ("[KF-C09-2]" if kf2 else ""), inp, f"{key}: {ns} cancelled at {at}")
+        leaked = [w for w in env.writers if w.key == key and not w.closed]
+        if leaked:
+            b.fail("t2.no_open_socket_after_client_disconnected" + ("[KF-C09-2]" if kf2 else ""), inp, f"{key}: writer never closed; hooks {ns}")
+    if [w for w in env.writers if w.key == "client" and not w.closed]:
+        b.fail("t2.client_socket_closed", inp, "client writer open after handle_client returned")
+    if res["pending_tasks"]:
+        b.fail("t2.no_task_left_running", inp, str(res["pending_tasks"]))
+    live = [t for t in res["transports"] if t[1] or t[2]]
+    if live and not any(t[1] for t in live if ("server_connected", t[0]) in hooks and env.cancelled_at.get(t[0]) == f"hook:server_connected:{t[0]}"):
+        b.fail("t2.no_live_transport_after_client_disconnected", inp, str(res["transports"]))
+    for a, n in env.max_open.items():
+        if n > 5:
+            b.fail("t2.at_most_five_open_per_address", inp, f"{a}: {n} open at the same time")
+    started = "Start" in env.layer_events
+    if expect_started is not None and started != expect_started:
+        b.fail("t2.refused_client_never_reaches_layer" if not expect_started else "t2.accepted_client_is_started", inp, str(env.layer_events[:4]))
+
+
+def bounded(tier, seed):
+    import itertools
+    import random
+    b = Bounded()
+    b.rule = ("real ConnectionHandler (handle_client/open_connection/handle_connection/server_event/close_connection/drain_writers/on_timeout) under a real asyncio loop, fake "
+              "stream readers/writers, asyncio.open_connection replaced, a scripted multiplexing layer opening 1-2 upstream connections (same or different address); canonical exchange "
+              "open -> client data -> server data -> client EOF; at EVERY await position of the canonical run (hooks, connect, read, drain) one fault of {layer closes upstream i (cancel), client EOF, client reset, "
+              "inactivity timeout, upstream EOF/reset, write error on client/upstream} is injected (plus ordered pairs of faults at two positions, subsampled by the seed: 500 per configuration, thorough 30000), x connect refusal per upstream; "
+              "plus: real HttpLayer exchange with an addon blocking in each hook and the client leaving; refused client; 7 concurrent connections to one address with cancellation while waiting for the semaphore. "
+              "checked: hook pairing per connection, no unclosed socket / running task / live transport after handle_client returns, <= 5 open per address, termination, refused => no Start. "
+              "distinct = (upstreams, connect failures, faults); non-trivial = a fault fired")
+    b.bound = "<= 2 upstream connections per exchange (7 in the semaphore family), <= 2 faults per run (single faults exhaustive over positions x kinds, pairs sampled)"
+    b.exhaustive = False
+    rnd = random.Random(seed)
+    A1, A2 = ("example.com", 443), ("other.example", 80)
+    configs = [((A1,), ()), ((A1,), ("s1",)), ((A1, A1), ()), ((A1, A2), ()), ((A1, A1), ("s2",)), ((A1, A2), ("s1",))]
+    for addrs, cf in configs:
+        base = _t2_run(addrs, connect_fail=cf)
+        inp0 = {"upstreams": [list(a) for a in addrs], "connect_refused": list(cf), "faults": {}}
+        b.case(("base", addrs, cf), nontrivial=True)
+        _t2_check(b, base, inp0)
+        positions = list(dict.fromkeys(base["env"].trace))
+        keys = [f"s{i + 1}" for i in range(len(addrs))]
+        kinds = ["client_eof", "client_reset", "timeout", "write_error:client"] + [f"{k}:{key}" for key in keys for k in ("cancel", "server_eof", "server_reset", "write_error")]
+        singles = [(p, k) for p in positions for k in kinds]
+        for p, k in singles:
+            res = _t2_run(addrs, faults={p: k}, connect_fail=cf)
+            b.case((addrs, cf, p, k), nontrivial=bool(res["env"].fired))
+            _t2_check(b, res, dict(inp0, faults={p: k}))
+        if True:
+            pairs = [(s1, s2) for s1 in singles for s2 in singles if s1[0] != s2[0]]
+            rnd.shuffle(pairs)
+            for (p1, k1), (p2, k2) in pairs[:30000 if tier == "thorough" else 500]:
+                res = _t2_run(addrs, faults={p1: k1, p2: k2}, connect_fail=cf)
+                b.case((addrs, cf, p1, k1, p2, k2), nontrivial=len(res["env"].fired) == 2)
+                _t2_check(b, res, dict(inp0, faults={p1: k1, p2: k2}))
+    # the real NextLayer/HttpLayer stack: one proxied GET, faults at every await position incl. every HTTP hook
+    base = _t2_run((), http=True)
+    b.case(("http", "base"), nontrivial=True)
+    _t2_check(b, base, {"layer": "real HttpLayer, regular mode, GET http://example.com/", "faults": {}}, expect_started=None)
+    if ("response", "client") not in base["env"].hooks or b"200 OK" not in base["env"].writers[0].data:
+        b.fail("t2.http_family_completes_an_exchange", {"layer": "real HttpLayer"}, str(base["env"].hooks))
+    for p in dict.fromkeys(base["env"].trace):
+        for k in ("client_eof", "client_reset", "timeout", "write_error:client", "server_eof:s1", "server_reset:s1", "write_error:s1"):
+            res = _t2_run((), faults={p: k}, http=True)
+            b.case(("http", p, k), nontrivial=bool(res["env"].fired))
+            _t2_check(b, res, {"layer": "real HttpLayer, regular mode, GET http://example.com/", "faults": {p: k}}, expect_started=None)
+    # refused clients never reach the layer
+    for addrs in ((A1,), (A1, A2)):
+        res = _t2_run(addrs, refuse=True)
+        b.case(("refused", addrs), nontrivial=True)
+        _t2_check(b, res, {"refused": True, "upstreams": [list(a) for a in addrs]}, expect_started=False)
+        if res["env"].hooks != [("client_connected", "client"), ("client_disconnected", "client")]:
+            b.fail("t2.refused_client_hooks", {"refused": True}, str(res["env"].hooks))
+    # per-address bound: 7 connection attempts to one address, two wait in the semaphore; cancel the waiting / the open ones
+    seven = (A1,) * 7
+    base = _t2_run(seven, script=("client_data",))
+    b.case(("seven", "base"), nontrivial=True)
+    _t2_check(b, base, {"upstreams": "7 x example.com:443", "faults": {}})
+    if base["env"].max_open.get(A1, 0) != 5:
+        b.fail("t2.semaphore_family_reaches_the_bound", {"upstreams": "7 x example.com:443"}, f"max open {base['env'].max_open}")
+    for victim in ("s1", "s6", "s7"):
+        for at in ("read:s5", "hook:server_connected:s5", "read:client#1"):
+            res = _t2_run(seven, faults={at: f"cancel:{victim}"}, script=("client_data", "client_eof"))
+            b.case(("seven", victim, at), nontrivial=bool(res["env"].fired))
+            _t2_check(b, res, {"upstreams": "7 x example.com:443", "faults": {at: f"cancel:{victim}"}})
+    return b
